@@ -123,6 +123,10 @@ func (e *Engine) verifyFunc(key string) (res *FnResult) {
 	}
 	entrySnap = st.clone()
 	c.entry = entrySnap
+	for _, w := range fc.Watches {
+		wt := (&SpecCtx{c: c, pkg: fi.Pkg, pos: fi.Body.Pos(), env: c.env, st: entrySnap, old: entrySnap}).eval(w.Val)
+		c.watch[w.Target] = wt.S
+	}
 	outs := c.execBlock(st, fi.Body.List)
 	res.Paths = len(outs)
 	nexit := 0
@@ -143,6 +147,12 @@ func (e *Engine) verifyFunc(key string) (res *FnResult) {
 		for _, fo := range c.runDefers(o) {
 			nexit++
 			c.checkExit(fo, fc, entrySnap)
+		}
+	}
+	for i, cs := range fc.CallSites {
+		if !c.matchedCallSites[i] {
+			obls = append(obls, &Obligation{Name: fmt.Sprintf("callsite-present:%s/assert%d", lastSeg(cs.Callee), i+1), Fn: key, Kind: "callsite",
+				Desc: "the call this assertion is attached to exists on some path: " + cs.Src, Pos: c.pos(fi.Body.Pos()), Goal: "false", Watch: map[string]string{}})
 		}
 	}
 	if nexit == 0 && len(fc.Ensures) > 0 {
@@ -208,6 +218,17 @@ func (c *FnCtx) checkExit(o Outcome, fc *FuncContract, entry *State) {
 	c.checkFrame(st, fc, entry, sc)
 }
 
+// frameFormula: forall r. (exceptions) or cur[r] = old[r]. A trigger on the current array is given
+// only when it is a plain constant (used as a hypothesis after a loop havoc); solvers reject
+// `ite` inside patterns.
+func frameFormula(exceptions, cur, old string) string {
+	body := fmt.Sprintf("(or %s (= (select %s r) (select %s r)))", exceptions, cur, old)
+	if !strings.ContainsAny(cur, "( ") {
+		return fmt.Sprintf("(forall ((r V)) (! %s :pattern ((select %s r))))", body, cur)
+	}
+	return fmt.Sprintf("(forall ((r V)) %s)", body)
+}
+
 type frameGoal struct {
 	key, detail, goal, desc string
 }
@@ -252,7 +273,7 @@ func (c *FnCtx) frameGoals(st *State, fc *FuncContract, entry *State, sc *SpecCt
 				ex = append(ex, sEq("r", l))
 			}
 			ex = append(ex, sNot(sSel(allocEntry.S, "r")))
-			goal := fmt.Sprintf("(forall ((r V)) (! (or %s (= (select %s r) (select %s r))) :pattern ((select %s r))))", strings.Join(ex, " "), cur.S, old.S, cur.S)
+			goal := frameFormula(strings.Join(ex, " "), cur.S, old.S)
 			out = append(out, frameGoal{k, strings.TrimPrefix(k, "F:"+c.fi.Pkg.PkgPath+"."), goal, "only locations named in modifies (or freshly allocated) change in " + k})
 		case strings.HasPrefix(k, "MD:") || strings.HasPrefix(k, "MV:"):
 			var ex []string
@@ -260,7 +281,7 @@ func (c *FnCtx) frameGoals(st *State, fc *FuncContract, entry *State, sc *SpecCt
 				ex = append(ex, sEq("r", l))
 			}
 			ex = append(ex, sNot(sSel(allocEntry.S, "r")))
-			goal := fmt.Sprintf("(forall ((r V)) (! (or %s (= (select %s r) (select %s r))) :pattern ((select %s r))))", strings.Join(ex, " "), cur.S, old.S, cur.S)
+			goal := frameFormula(strings.Join(ex, " "), cur.S, old.S)
 			out = append(out, frameGoal{k, k, goal, "only maps named in modifies (or freshly allocated) change in " + k})
 		default:
 			out = append(out, frameGoal{k, k, sEq(cur.S, old.S), k + " is not in the modifies clause and must be unchanged"})
